@@ -62,10 +62,15 @@ HARNESS.update({
     'u7_tables_exact': _h(['C05', 'C12'], True, 'all protocols 0..=5, concrete static tables, the real phf lookup',
                           'src/opcodes.rs: PICKLE_OPCODES', ['C05', 'C09']),
 })
+HARNESS.update({
+    'u9_arb_choose_index_onto': _h(['C12'], True, 'all n in 1..=65536 and all t < n: an explicit 1- or 2-byte fuzzer input selects t',
+                                   'source.rs: choose_index (Arbitrary) is onto', ['C12']),
+    'u9_arb_gen_bool_both': _h(['C12'], True, 'inputs 00 and 01', 'source.rs: gen_bool (Arbitrary) takes both values', ['C12']),
+})
 U7 = ['u7_as_u8_all_kinds', 'u7_tables_exact']
 U8_QUICK = [n for n in HARNESS if n.startswith('u8_') and 'typeconfusion' not in n]
 U8_THOROUGH = [n for n in HARNESS if n.startswith('u8_typeconfusion')]
-U9_QUICK = [n for n in HARNESS if n.startswith('u9_') and n != 'u9_rand_choose_index_bounded_2p16']
+U9_QUICK = [n for n in HARNESS if n.startswith('u9_') and n != 'u9_rand_choose_index_bounded_2p16' and 'onto' not in n and 'bool_both' not in n]
 U9_THOROUGH = ['u9_rand_choose_index_bounded_2p16']
 
 KANI_ASSUMPTIONS = [
@@ -92,6 +97,19 @@ PROPS = {
             'the composition over a whole generation run relies on the generation loop only emitting opcodes '
             'that passed can_emit (get_valid_opcodes, by inspection until unit "driver" lands)',
         ]),
+    'C12': dict(
+        title='Every opcode of the protocol vocabulary is reachable',
+        verus=['core'], kani_quick=['u7_tables_exact', 'u9_arb_choose_index_onto', 'u9_arb_gen_bool_both'],
+        level='other',
+        technique='contracts: per-arm completeness of can_emit on a witness state (Verus), candidate table == CPython vocabulary (Kani), choice function onto in fuzzer-bytes mode (Kani)',
+        claim='Decides the part contracts can decide: (i) the candidate table of protocol P is exactly the CPython vocabulary introduced up to P (nothing missing); '
+              '(ii) for every opcode the real guard answers yes in a concrete witness state reached by a listed trace of unconditionally valid opcodes (no guard is '
+              'unsatisfiable or too strict for its witness); (iii) in fuzzer-bytes mode the uniform choice can select every alternative and the FRAME coin takes both values. '
+              'The existence of a ChaCha8 seed in a fixed range realising the choices is an existential over a PRNG and is not decided.',
+        note='level "other": a satisfiability-by-witness argument, not an exploration of seeds. Witness traces are listed in contracts/witnesses.md; that each trace is accepted '
+             'by the reference machine and ends in the witness state is by inspection (short concrete traces).',
+        explanation='guard completeness on witness states (one Verus obligation per can_emit arm) + table exactness + onto-ness of the choice function; seed existential not decided',
+        assumptions=['PRNG-seed existential not decided (no contract can express it)', 'witness traces accepted by the reference machine: by inspection of contracts/witnesses.md']),
     'C15': dict(
         title='The mutation rate is honoured at its extremes',
         verus=[], kani_quick=U8_QUICK + ['u9_rand_scalars_total'], kani_thorough=U8_THOROUGH,
@@ -211,7 +229,6 @@ PROPS.update({
 
 NOT_APPLICABLE = {
     'C04': 'check under construction in this session',
-    'C12': 'check under construction in this session',
     'C13': 'front ends (main.rs clap/rayon/filesystem, bash wrapper, PyO3/Python) have no function boundary a contract can be put on and no deductive verifier here accepts them (DESIGN.md section 7)',
     'C14': 'heap reachability through Rc<RefCell<..>> cycles: no contract within reach of Verus (cell model has no heap) or Kani (recursive drop glue does not terminate in CBMC) can express or decide it (DESIGN.md section 7)',
 }
